@@ -2497,6 +2497,7 @@ int _vnaproperty_yaml_export(vnaproperty_yaml_t *vymlp,
 		_vnaproperty_yaml_error(vymlp, VNAERR_SYSTEM,
 			"yaml_document_add_mapping: %s: %s",
 			vymlp->vyml_filename, strerror(errno));
+		free((void *)keys);
 		return -1;
 	    }
 	    for (const char **cpp = keys; *cpp != NULL; ++cpp) {
@@ -2505,10 +2506,20 @@ int _vnaproperty_yaml_export(vnaproperty_yaml_t *vymlp,
 		int value;
 
 		if ((key = vnaproperty_quote_key(*cpp)) == NULL) {
+		    _vnaproperty_yaml_error(vymlp, VNAERR_SYSTEM,
+			    "vnaproperty_quote_key: %s", strerror(errno));
 		    free((void *)keys);
 		    return -1;
 		}
+		errno = 0;
 		subtree = vnaproperty_get_subtree(root, "%s", key);
+		if (subtree == NULL && errno != 0) {
+		    _vnaproperty_yaml_error(vymlp, VNAERR_SYSTEM,
+			    "vnaproperty_get_subtree: %s", strerror(errno));
+		    free((void *)keys);
+		    free((void *)key);
+		    return -1;
+		}
 		if ((value = _vnaproperty_yaml_export(vymlp, subtree)) == -1) {
 		    free((void *)keys);
 		    free((void *)key);
@@ -2530,6 +2541,11 @@ int _vnaproperty_yaml_export(vnaproperty_yaml_t *vymlp,
 	    int sequence;
 	    int count = vnaproperty_count(root, "[]");
 
+	    if (count == -1) {
+		_vnaproperty_yaml_error(vymlp, VNAERR_SYSTEM,
+			"vnaproperty_count: %s", strerror(errno));
+		return -1;
+	    }
 	    errno = 0;
 	    if ((sequence = yaml_document_add_sequence(document, NULL,
 			    YAML_BLOCK_SEQUENCE_STYLE)) == 0) {
@@ -2545,7 +2561,13 @@ int _vnaproperty_yaml_export(vnaproperty_yaml_t *vymlp,
 		vnaproperty_t *subtree;
 		int value;
 
+		errno = 0;
 		subtree = vnaproperty_get_subtree(root, "[%d]", i);
+		if (subtree == NULL && errno != 0) {
+		    _vnaproperty_yaml_error(vymlp, VNAERR_SYSTEM,
+			    "vnaproperty_get_subtree: %s", strerror(errno));
+		    return -1;
+		}
 		if ((value = _vnaproperty_yaml_export(vymlp, subtree)) == -1) {
 		    return -1;
 		}
